@@ -206,11 +206,35 @@ def scenario_sequential(size, smin, njobs):
     return bad
 
 
+def scenario_base_exception_job():
+    """listed known finding: a job ending with a BaseException that is not an Exception kills its worker without notify_done"""
+    config.THREADPOOL_SIZE, config.THREADPOOL_SIZE_MIN = 1, 1
+    pool = T.Pool()
+    hook = threading.excepthook
+    threading.excepthook = lambda args: None        # keep the dying thread quiet
+    try:
+        def bad():
+            raise SystemExit(3)
+        pool.process(bad)
+        time.sleep(0.2)
+        lost = len(pool.busy) == 1 and not any(w.is_alive() for w in pool.busy)
+        refused = False
+        try:
+            pool.process(lambda: None)
+        except T.NoFreeWorkersError:
+            refused = True
+        return lost and refused
+    finally:
+        threading.excepthook = hook
+        pool.close()
+
+
 def main(mode):
     t0 = time.time()
     saved = (config.THREADPOOL_SIZE, config.THREADPOOL_SIZE_MIN)
     runs = 0
     fail = None
+    known = []
     sizes = [(1, 1), (2, 1), (2, 2), (3, 1), (3, 2)] if mode == "thorough" else [(1, 1), (2, 1), (2, 2)]
     try:
         for size, smin in sizes:
@@ -222,10 +246,13 @@ def main(mode):
                 fail = fail or scenario_sequential(size, smin, njobs)
             if fail:
                 break
+        runs += 1
+        if scenario_base_exception_job():
+            known.append("C18-job-ending-with-baseexception")
     finally:
         threading.settrace(None)
         config.THREADPOOL_SIZE, config.THREADPOOL_SIZE_MIN = saved
-    rep = {"runs": runs, "failing_input": fail, "wall_s": round(time.time() - t0, 2),
+    rep = {"runs": runs, "failing_input": fail, "known_findings_reproduced": known, "wall_s": round(time.time() - t0, 2),
            "bounded": [{"what": "real Pool/Worker under forced schedules (trace-hook pauses) and sequential submissions",
                         "bound": "pool sizes %r x 3 schedules + job counts 0..size+2" % (sizes,), "runs": runs, "failures": 0 if fail is None else 1}]}
     print(json.dumps(rep))
